@@ -33,6 +33,9 @@ class Mode(str, Enum):
     SLOW = "slow"
 
 
+TRACE = []      # the tasks executed (python objects), in order
+
+
 class N(Config):
     """Common base of every node class (no parameter)"""
 
@@ -99,7 +102,7 @@ class TaskA(Task, N):
     out: Annotated[Path, pathgenerator("result.txt")]
 
     def execute(self):
-        pass
+        TRACE.append(self)
 
 
 class TaskOut(Task, N):
@@ -115,7 +118,7 @@ class TaskOut(Task, N):
         return abs(self.x) % 2
 
     def execute(self):
-        pass
+        TRACE.append(self)
 
 
 class TaskSelf(Task, N):
@@ -127,7 +130,7 @@ class TaskSelf(Task, N):
         return dep(self.c)
 
     def execute(self):
-        pass
+        TRACE.append(self)
 
 
 class TaskSelfG(Task, N):
@@ -142,7 +145,7 @@ class TaskSelfG(Task, N):
         return dep(self.c)
 
     def execute(self):
-        pass
+        TRACE.append(self)
 
 
 class Pre(LightweightTask, N):
@@ -154,7 +157,7 @@ class Pre(LightweightTask, N):
         return abs(self.v) % 2 == 1
 
     def execute(self):
-        pass
+        TRACE.append(self)
 
 
 class Init(LightweightTask, N):
@@ -162,7 +165,7 @@ class Init(LightweightTask, N):
     w: Meta[int] = 0
 
     def execute(self):
-        pass
+        TRACE.append(self)
 
 
 # ---- deprecation -----------------------------------------------------------
@@ -181,7 +184,7 @@ class NewT(Task, N):
     c: Param[Optional[N]]
 
     def execute(self):
-        pass
+        TRACE.append(self)
 
 
 @deprecate
@@ -239,11 +242,22 @@ class W2(N):
     c: Param[Optional[N]]
 
 
+class Kind(Enum):
+    """a module-level enumeration with the same bare name and members as the one nested in EH"""
+    KA = "top-a"
+    KB = "top-b"
+
+
 class EH(N):
-    """enumerations that are also ints / strs"""
+    """enumerations that are also ints / strs; an enumeration nested in the class (qualified name EH.Kind)"""
+    class Kind(Enum):
+        KA = 1
+        KB = 2
+
     lv: Param[Level] = Level.LOW
     md: Param[Optional[Mode]]
     x: Param[int] = 0
+    kd: Param[Optional[Kind]]
 
 
 class GenV(N):
@@ -259,7 +273,7 @@ class S2(N):
 
 
 CLASSES = {c.__name__: c for c in [K1, K2, W1, W2, S2, GenV, EH, TaskSelf, TaskSelfG, Leaf, Inner, Bag, Req, TaskA, TaskOut, Pre, Init, NewL, OldL, NewT, OldT, V1, V2]}
-ENUMS = {"Color": Color, "Shape": Shape, "Level": Level, "Mode": Mode}
+ENUMS = {"Color": Color, "Shape": Shape, "Level": Level, "Mode": Mode, "EHKind": EH.Kind}
 
 
 def _register_schema2():
